@@ -14,6 +14,10 @@ const RACE_DELAY: Duration = Duration::from_millis(200);
 /// against each other and the first to connect successfully wins the race.
 pub fn connect(host: &Host<&str>, port: u16, timeout: Duration, deadline: Option<Instant>) -> io::Result<TcpStream> {
     let addrs: Vec<_> = match *host {
+        #[cfg(feature = "verif-hooks")]
+        Host::Domain(domain) if crate::verif_hooks::has_resolver_override(domain) => {
+            crate::verif_hooks::resolver_override(domain)
+        }
         Host::Domain(domain) => (domain, port).to_socket_addrs()?.collect(),
         Host::Ipv4(ip) => return TcpStream::connect_timeout(&(IpAddr::V4(ip), port).into(), timeout),
         Host::Ipv6(ip) => return TcpStream::connect_timeout(&(IpAddr::V6(ip), port).into(), timeout),
@@ -139,4 +143,10 @@ fn test_intertwine_left() {
 fn test_intertwine_right() {
     let x: Vec<u32> = intertwine(vec![1, 2, 3].into_iter(), vec![4, 5, 6, 100, 101].into_iter()).collect();
     assert_eq!(&x[..], &[1, 4, 2, 5, 3, 6, 100, 101][..]);
+}
+
+/// `intertwine` over two vectors, for the verification harness.
+#[cfg(feature = "verif-hooks")]
+pub(crate) fn intertwine_vecs<T>(a: Vec<T>, b: Vec<T>) -> Vec<T> {
+    intertwine(a.into_iter(), b.into_iter()).collect()
 }
